@@ -49,6 +49,14 @@ FIELDS = [
     ("tls_sign_hash::parse_digitally_signed", ["f:alg", "some", "f:sign"], 8, "signature algorithm"),
     ("certificate_transparency::parse_ct_signed_certificate_timestamp", ["in", "f:version"], 8, "CT version"),
     ("dtls::parse_dtls_plaintext_record", ["f:header", "f:version"], 16, "DTLS record version"),
+    # message versions and ids inside DTLS handshake messages (anchored at the exported dispatcher, through its arms)
+    ("dtls::parse_dtls_message_handshake", ["a:0", "f:body", "a:0@ClientHello", "f:version"], 16, "DTLS ClientHello version"),
+    ("dtls::parse_dtls_message_handshake", ["a:0", "f:body", "a:0@ClientHello", "f:ciphers", "elem"], 16, "DTLS cipher-suite ids"),
+    ("dtls::parse_dtls_message_handshake", ["a:0", "f:body", "a:0@ClientHello", "f:comp", "elem"], 8, "DTLS compression ids"),
+    ("dtls::parse_dtls_message_handshake", ["a:0", "f:body", "a:0@HelloVerifyRequest", "f:server_version"], 16, "HelloVerifyRequest version"),
+    ("dtls::parse_dtls_message_handshake", ["a:0", "f:body", "a:0@ServerHello", "f:version"], 16, "DTLS ServerHello version"),
+    ("dtls::parse_dtls_message_handshake", ["a:0", "f:body", "a:0@ServerHello", "f:cipher"], 16, "DTLS ServerHello cipher"),
+    ("dtls::parse_dtls_message_handshake", ["a:0", "f:body", "a:0@ServerHello", "f:compression"], 8, "DTLS ServerHello compression"),
 ]
 # raw byte lists returned verbatim (every value preserved by construction): (function, accessor, what)
 RAW_LISTS = [
@@ -296,6 +304,20 @@ def structural_vars(seq):
             free_vars(st[2], fv)
             out.update(x for x in fv if not x.startswith("?"))
     walk_steps(seq, add)
+    # a value looked at through a wrapper (peek, complete, a branch ..) is what its nested grammar read: testing the
+    # wrapper's result tests those reads
+    D = defs(seq)
+    work = list(out)
+    while work:
+        b = work.pop()
+        alts = alternatives(["v", b], D)
+        for r in alts or []:
+            fv = set()
+            free_vars(r, fv)
+            for x in fv:
+                if not x.startswith("?") and x not in out:
+                    out.add(x)
+                    work.append(x)
     return out
 
 
